@@ -41,7 +41,7 @@ def rank : Fn → Nat
 def Prog : Fn → Nat → Int → Nat → Prop
   | .typeLoop ret, p, r, p' => 0 ≤ r → p < p' ∨ r = ret
   | .encLoop, _, _, _ | .nestedLoop, _, _, _ | .ulLoop, _, _, _ | .ftLoop _, _, _, _ | .argLoop, _, _, _
-  | .exprListLoop, _, _, _ | .exprLoop, _, _, _ | .unresLoop, _, _, _ => True
+  | .exprListLoop, _, _, _ | .exprLoop, _, _, _ | .unresLoop, _, _, _ | .exprList, _, _, _ => True
   | _, p, r, p' => 0 ≤ r → p < p'
 
 /-- function-specific extras -/
@@ -59,12 +59,13 @@ def need (f : Fn) (e : Env) (st : St) : Nat := 8 * (e.n - st.pos) + rank f + 1
 
 def RecOK (rec : Fn → M Int) (B : Nat) : Prop :=
   ∀ (g : Fn) (e : Env) (st : St), e.fx = Fixes.all → st.len ≤ e.n → st.pos ≤ e.n → Stop e st.len →
-    need g e st ≤ B → Tri e st (rec g) (Post g e st)
+    need g e st ≤ B → delta g ≤ st.pos → Tri e st (rec g) (Post g e st)
 
 theorem s_rec {rec : Fn → M Int} {B : Nat} {e : Env} {st : St} {Q : Int → St → Prop} (hrec : RecOK rec B) (g : Fn)
     (hfx : e.fx = Fixes.all) (hl : st.len ≤ e.n) (hp : st.pos ≤ e.n) (hs : Stop e st.len) (hn : need g e st ≤ B)
+    (hd : delta g ≤ st.pos)
     (h : ∀ r st', Post g e st r st' → Q r st') : Tri e st (rec g) Q :=
-  tri_mono (hrec g e st hfx hl hp hs hn) h
+  tri_mono (hrec g e st hfx hl hp hs hn hd) h
 
 attribute [local irreducible] M.bind M.pure peek curr consumeN consume posBack ddDebug debugConsume eof getSt getEnv
   getFixes modifySt incLevel decLevel incType decType appendBytes appendSeparator rdAt number qualifier seqId sourceName
@@ -72,7 +73,7 @@ attribute [local irreducible] M.bind M.pure peek curr consumeN consume posBack d
 
 macro_rules | `(tactic| wp1) => `(tactic|
   (apply s_rec (by assumption) _ (by assumption) (by assumption) (by assumption) (by assumption)
-      (by simp only [need, rank]; omega);
+      (by simp only [need, rank]; omega) (by simp only [delta]; omega);
    intro r st' hpost;
    simp only [Post, delta, Prog, Extra, Nat.zero_mul, Nat.one_mul, Nat.add_zero] at hpost;
    obtain ⟨_, _, _, _, _, _, _, _⟩ := hpost;
@@ -86,11 +87,242 @@ section specs
 variable {rec : Fn → M Int} {B : Nat} {e : Env} {st : St}
 
 theorem spec_ptrToMember (hrec : RecOK rec B) (hfx : e.fx = Fixes.all) (hl : st.len ≤ e.n) (hp : st.pos ≤ e.n)
-    (hs : Stop e st.len) (hn : need .ptrToMember e st ≤ B + 1) :
+    (hs : Stop e st.len) (hn : need .ptrToMember e st ≤ B + 1) (hd : delta .ptrToMember ≤ st.pos) :
     Tri e st (bPtrToMember rec) (Post .ptrToMember e st) := by
   simp only [need, rank] at hn
+  simp only [delta] at hd
   have := exN_le st
   unfold bPtrToMember
+  wp
+  spec_close
+
+theorem spec_arrayType (hrec : RecOK rec B) (hfx : e.fx = Fixes.all) (hl : st.len ≤ e.n) (hp : st.pos ≤ e.n)
+    (hs : Stop e st.len) (hn : need .arrayType e st ≤ B + 1) (hd : delta .arrayType ≤ st.pos) :
+    Tri e st (bArrayType rec) (Post .arrayType e st) := by
+  simp only [need, rank] at hn
+  simp only [delta] at hd
+  have := exN_le st
+  unfold bArrayType
+  wp
+  spec_close
+
+theorem spec_decltype (hrec : RecOK rec B) (hfx : e.fx = Fixes.all) (hl : st.len ≤ e.n) (hp : st.pos ≤ e.n)
+    (hs : Stop e st.len) (hn : need .decltype e st ≤ B + 1) (hd : delta .decltype ≤ st.pos) :
+    Tri e st (bDecltype rec) (Post .decltype e st) := by
+  simp only [need, rank] at hn
+  simp only [delta] at hd
+  have := exN_le st
+  unfold bDecltype
+  wp
+  spec_close
+
+theorem spec_templateArgs (hrec : RecOK rec B) (hfx : e.fx = Fixes.all) (hl : st.len ≤ e.n) (hp : st.pos ≤ e.n)
+    (hs : Stop e st.len) (hn : need .templateArgs e st ≤ B + 1) (hd : delta .templateArgs ≤ st.pos) :
+    Tri e st (bTemplateArgs rec) (Post .templateArgs e st) := by
+  simp only [need, rank] at hn
+  simp only [delta] at hd
+  have := exN_le st
+  unfold bTemplateArgs
+  wp
+  spec_close
+
+theorem spec_argLoop (hrec : RecOK rec B) (hfx : e.fx = Fixes.all) (hl : st.len ≤ e.n) (hp : st.pos ≤ e.n)
+    (hs : Stop e st.len) (hn : need .argLoop e st ≤ B + 1) (hd : delta .argLoop ≤ st.pos) :
+    Tri e st (bArgLoop rec) (Post .argLoop e st) := by
+  simp only [need, rank] at hn
+  simp only [delta] at hd
+  have := exN_le st
+  unfold bArgLoop
+  wp
+  spec_close
+
+theorem spec_templateArg (hrec : RecOK rec B) (hfx : e.fx = Fixes.all) (hl : st.len ≤ e.n) (hp : st.pos ≤ e.n)
+    (hs : Stop e st.len) (hn : need .templateArg e st ≤ B + 1) (hd : delta .templateArg ≤ st.pos) :
+    Tri e st (bTemplateArg rec) (Post .templateArg e st) := by
+  simp only [need, rank] at hn
+  simp only [delta] at hd
+  have := exN_le st
+  unfold bTemplateArg
+  wp
+  spec_close
+
+theorem spec_exprLoop (hrec : RecOK rec B) (hfx : e.fx = Fixes.all) (hl : st.len ≤ e.n) (hp : st.pos ≤ e.n)
+    (hs : Stop e st.len) (hn : need .exprLoop e st ≤ B + 1) (hd : delta .exprLoop ≤ st.pos) :
+    Tri e st (bExprLoop rec) (Post .exprLoop e st) := by
+  simp only [need, rank] at hn
+  simp only [delta] at hd
+  have := exN_le st
+  unfold bExprLoop
+  wp
+  spec_close
+
+theorem spec_initializer (hrec : RecOK rec B) (hfx : e.fx = Fixes.all) (hl : st.len ≤ e.n) (hp : st.pos ≤ e.n)
+    (hs : Stop e st.len) (hn : need .initializer e st ≤ B + 1) (hd : delta .initializer ≤ st.pos) :
+    Tri e st (bInitializer rec) (Post .initializer e st) := by
+  simp only [need, rank] at hn
+  simp only [delta] at hd
+  have := exN_le st
+  unfold bInitializer
+  wp
+  spec_close
+
+theorem spec_exprPrimary (hrec : RecOK rec B) (hfx : e.fx = Fixes.all) (hl : st.len ≤ e.n) (hp : st.pos ≤ e.n)
+    (hs : Stop e st.len) (hn : need .exprPrimary e st ≤ B + 1) (hd : delta .exprPrimary ≤ st.pos) :
+    Tri e st (bExprPrimary rec) (Post .exprPrimary e st) := by
+  simp only [need, rank] at hn
+  simp only [delta] at hd
+  have := exN_le st
+  unfold bExprPrimary
+  wp
+  spec_close
+
+theorem spec_exprListLoop (hrec : RecOK rec B) (hfx : e.fx = Fixes.all) (hl : st.len ≤ e.n) (hp : st.pos ≤ e.n)
+    (hs : Stop e st.len) (hn : need .exprListLoop e st ≤ B + 1) (hd : delta .exprListLoop ≤ st.pos) :
+    Tri e st (bExprListLoop rec) (Post .exprListLoop e st) := by
+  simp only [need, rank] at hn
+  simp only [delta] at hd
+  have := exN_le st
+  unfold bExprListLoop
+  wp
+  spec_close
+
+theorem spec_exprList (hrec : RecOK rec B) (hfx : e.fx = Fixes.all) (hl : st.len ≤ e.n) (hp : st.pos ≤ e.n)
+    (hs : Stop e st.len) (hn : need .exprList e st ≤ B + 1) (hd : delta .exprList ≤ st.pos) :
+    Tri e st (bExprList rec) (Post .exprList e st) := by
+  simp only [need, rank] at hn
+  simp only [delta] at hd
+  have := exN_le st
+  unfold bExprList
+  wp
+  spec_close
+
+theorem spec_simpleId (hrec : RecOK rec B) (hfx : e.fx = Fixes.all) (hl : st.len ≤ e.n) (hp : st.pos ≤ e.n)
+    (hs : Stop e st.len) (hn : need .simpleId e st ≤ B + 1) (hd : delta .simpleId ≤ st.pos) :
+    Tri e st (bSimpleId rec) (Post .simpleId e st) := by
+  simp only [need, rank] at hn
+  simp only [delta] at hd
+  have := exN_le st
+  unfold bSimpleId
+  wp
+  spec_close
+
+theorem spec_unresolvedType (hrec : RecOK rec B) (hfx : e.fx = Fixes.all) (hl : st.len ≤ e.n) (hp : st.pos ≤ e.n)
+    (hs : Stop e st.len) (hn : need .unresolvedType e st ≤ B + 1) (hd : delta .unresolvedType ≤ st.pos) :
+    Tri e st (bUnresolvedType rec) (Post .unresolvedType e st) := by
+  simp only [need, rank] at hn
+  simp only [delta] at hd
+  have := exN_le st
+  unfold bUnresolvedType
+  wp
+  spec_close
+
+theorem spec_destructorName (hrec : RecOK rec B) (hfx : e.fx = Fixes.all) (hl : st.len ≤ e.n) (hp : st.pos ≤ e.n)
+    (hs : Stop e st.len) (hn : need .destructorName e st ≤ B + 1) (hd : delta .destructorName ≤ st.pos) :
+    Tri e st (bDestructorName rec) (Post .destructorName e st) := by
+  simp only [need, rank] at hn
+  simp only [delta] at hd
+  have := exN_le st
+  unfold bDestructorName
+  wp
+  spec_close
+
+theorem spec_baseUnresolvedName (hrec : RecOK rec B) (hfx : e.fx = Fixes.all) (hl : st.len ≤ e.n) (hp : st.pos ≤ e.n)
+    (hs : Stop e st.len) (hn : need .baseUnresolvedName e st ≤ B + 1) (hd : delta .baseUnresolvedName ≤ st.pos) :
+    Tri e st (bBaseUnresolvedName rec) (Post .baseUnresolvedName e st) := by
+  simp only [need, rank] at hn
+  simp only [delta] at hd
+  have := exN_le st
+  unfold bBaseUnresolvedName
+  wp
+  spec_close
+
+theorem spec_unresLoop (hrec : RecOK rec B) (hfx : e.fx = Fixes.all) (hl : st.len ≤ e.n) (hp : st.pos ≤ e.n)
+    (hs : Stop e st.len) (hn : need .unresLoop e st ≤ B + 1) (hd : delta .unresLoop ≤ st.pos) :
+    Tri e st (bUnresLoop rec) (Post .unresLoop e st) := by
+  simp only [need, rank] at hn
+  simp only [delta] at hd
+  have := exN_le st
+  unfold bUnresLoop
+  wp
+  spec_close
+
+theorem spec_functionType (hrec : RecOK rec B) (hfx : e.fx = Fixes.all) (hl : st.len ≤ e.n) (hp : st.pos ≤ e.n)
+    (hs : Stop e st.len) (hn : need .functionType e st ≤ B + 1) (hd : delta .functionType ≤ st.pos) :
+    Tri e st (bFunctionType rec) (Post .functionType e st) := by
+  simp only [need, rank] at hn
+  simp only [delta] at hd
+  have := exN_le st
+  unfold bFunctionType
+  wp
+  spec_close
+
+theorem spec_type (hrec : RecOK rec B) (hfx : e.fx = Fixes.all) (hl : st.len ≤ e.n) (hp : st.pos ≤ e.n)
+    (hs : Stop e st.len) (hn : need .type e st ≤ B + 1) (hd : delta .type ≤ st.pos) :
+    Tri e st (bType rec) (Post .type e st) := by
+  simp only [need, rank] at hn
+  simp only [delta] at hd
+  have := exN_le st
+  unfold bType
+  wp
+  spec_close
+
+theorem spec_operatorName (hrec : RecOK rec B) (hfx : e.fx = Fixes.all) (hl : st.len ≤ e.n) (hp : st.pos ≤ e.n)
+    (hs : Stop e st.len) (hn : need .operatorName e st ≤ B + 1) (hd : delta .operatorName ≤ st.pos) :
+    Tri e st (bOperatorName rec) (Post .operatorName e st) := by
+  simp only [need, rank] at hn
+  simp only [delta] at hd
+  have := exN_le st
+  unfold bOperatorName
+  wp
+  spec_close
+
+theorem spec_ulLoop (hrec : RecOK rec B) (hfx : e.fx = Fixes.all) (hl : st.len ≤ e.n) (hp : st.pos ≤ e.n)
+    (hs : Stop e st.len) (hn : need .ulLoop e st ≤ B + 1) (hd : delta .ulLoop ≤ st.pos) :
+    Tri e st (bUlLoop rec) (Post .ulLoop e st) := by
+  simp only [need, rank] at hn
+  simp only [delta] at hd
+  have := exN_le st
+  unfold bUlLoop
+  wp
+  spec_close
+
+theorem spec_nestedName (hrec : RecOK rec B) (hfx : e.fx = Fixes.all) (hl : st.len ≤ e.n) (hp : st.pos ≤ e.n)
+    (hs : Stop e st.len) (hn : need .nestedName e st ≤ B + 1) (hd : delta .nestedName ≤ st.pos) :
+    Tri e st (bNestedName rec) (Post .nestedName e st) := by
+  simp only [need, rank] at hn
+  simp only [delta] at hd
+  have := exN_le st
+  unfold bNestedName
+  wp
+  spec_close
+
+theorem spec_localName (hrec : RecOK rec B) (hfx : e.fx = Fixes.all) (hl : st.len ≤ e.n) (hp : st.pos ≤ e.n)
+    (hs : Stop e st.len) (hn : need .localName e st ≤ B + 1) (hd : delta .localName ≤ st.pos) :
+    Tri e st (bLocalName rec) (Post .localName e st) := by
+  simp only [need, rank] at hn
+  simp only [delta] at hd
+  have := exN_le st
+  unfold bLocalName
+  wp
+  spec_close
+
+theorem spec_name (hrec : RecOK rec B) (hfx : e.fx = Fixes.all) (hl : st.len ≤ e.n) (hp : st.pos ≤ e.n)
+    (hs : Stop e st.len) (hn : need .name e st ≤ B + 1) (hd : delta .name ≤ st.pos) :
+    Tri e st (bName rec) (Post .name e st) := by
+  simp only [need, rank] at hn
+  simp only [delta] at hd
+  have := exN_le st
+  unfold bName
+  wp
+  spec_close
+
+theorem spec_encLoop (hrec : RecOK rec B) (hfx : e.fx = Fixes.all) (hl : st.len ≤ e.n) (hp : st.pos ≤ e.n)
+    (hs : Stop e st.len) (hn : need .encLoop e st ≤ B + 1) (hd : delta .encLoop ≤ st.pos) :
+    Tri e st (bEncLoop rec) (Post .encLoop e st) := by
+  simp only [need, rank] at hn
+  simp only [delta] at hd
+  have := exN_le st
+  unfold bEncLoop
   wp
   spec_close
 
